@@ -739,8 +739,17 @@ def check_C16(ctx):
                 if stack:
                     stack.pop()
         return False
+    def syn(rec, d):
+        return rec.get("kind") == "syn" and isinstance(d, dict) and d.get("verdict") == "error-location-inconsistent"
+    def scan_error_after_directive(rec, d):
+        return syn(rec, d) and rec.get("yaml", "").lstrip("\ufeff").startswith("%")
+    def scan_error_at_eof(rec, d):
+        y = rec.get("yaml", "")
+        p = rec.get("eprimary", {})
+        return syn(rec, d) and p.get("off", -1) >= len(y.lstrip("\ufeff")) and p.get("col") == 1 and not y.endswith(("\n", "\r"))
     matchers = {"C16-quoted-span-runs-to-line-end": lambda rec, d: isinstance(d, dict) and d.get("verdict") == "quoted-span-runs-past-closing-quote",
-                "C16-alias-inside-complex-key": alias_in_complex_key}
+                "C16-alias-inside-complex-key": alias_in_complex_key,
+                "C16-scan-error-after-directive": scan_error_after_directive, "C16-scan-error-at-eof": scan_error_at_eof}
     classify_mismatches(ctx, mism, recs, matchers, "a reported location is inconsistent with the text or names the wrong node / site (Locations!LVerdict, ErrSites)")
     return finish(ctx, "model_checking",
                   "coordinates: every text of <= 4/5 characters over {1-, 2-, 4-byte character, TAB, LF, CR} (TLC: laws of LineAt / ColAt / "
